@@ -229,11 +229,12 @@ theorem C07_override (cfg : Cfg) (inits : List DVal) (hin : cfg.args.length ≤ 
   refine ⟨hf, e, fun i d v hi hv ht => ?_⟩
   exact sources_dests_denote hin e hi hv ht
 
-/-- the value an overridden int or string destination ends with: the last value given on argv -/
+/-- the value an overridden int or string destination ends with: the last value given on argv (a string
+    destination: that value as formatted by the argument's formatter, `d.fmt`; no formatter: as typed) -/
 theorem C07_override_value (d : ArgDef) (init : DVal) (i : Nat) (usS usA : List Use) (vs : List Word) (last : Word)
     (hv : valsOf i usA = vs ++ [last]) :
     (d.kind = .int → denote d init (valsOf i (usS ++ usA)) = .int (castOr0 last)) ∧
-    (d.kind = .str → denote d init (valsOf i (usS ++ usA)) = .str last) := by
+    (d.kind = .str → denote d init (valsOf i (usS ++ usA)) = .str (d.fmt.apply last)) := by
   have : valsOf i (usS ++ usA) = (valsOf i usS ++ vs) ++ [last] := by
     unfold valsOf at hv ⊢
     rw [List.filter_append, List.map_append, hv, List.append_assoc]
